@@ -444,14 +444,24 @@ func initExterns() {
 		return Value{App("time.year", SInt, args[0][0])}
 	})
 	// ---- os / filepath (ghost file system trace)
-	externTable["os.ReadFile"] = ret(func(e *Engine, s *State, x ssa.CallInstruction, args []Value) Value {
-		errv, fails := e.maybeError(s, "readfile")
+	externTable["os.ReadFile"] = func(e *Engine, s *State, x ssa.CallInstruction, fn *ssa.Function, args []Value) ([]*State, bool) {
+		// two outcomes, explored separately: an error and no data, or the file's content and no error
+		fails := Sym(e.freshName("ext.readfile.fails"), SBool)
+		tag := Sym(e.freshName("ext.readfile.errtag"), SInt)
+		val := Sym(e.freshName("ext.readfile.err"), SInt)
 		content := App("fs.content", SStr, args[0][0], Int(int64(len(s.trace))))
+		bad := s.fork()
+		bad.assume(fails)
+		bad.assume(Lt(Zero, tag))
+		bad.assume(Ne(val, Zero))
+		e.bindResult(bad, x, Value{Zero, Zero, Zero, Zero, tag, val})
+		s.assume(Not(fails))
 		r := s.newAlloc("[]byte")
 		s.sto("bytesof", []*Term{r}, content)
 		n := StrLen(content)
-		return Value{Ite(fails, Zero, r), Zero, Ite(fails, Zero, n), Ite(fails, Zero, n), errv[0], errv[1]}
-	})
+		e.bindResult(s, x, Value{r, Zero, n, n, Zero, Zero})
+		return []*State{bad, s}, false
+	}
 	externTable["os.WriteFile"] = ret(func(e *Engine, s *State, x ssa.CallInstruction, args []Value) Value {
 		errv, _ := e.maybeError(s, "writefile")
 		e.detFS(s, x, "writefile", args[0][0])
